@@ -95,3 +95,7 @@ Proof.
   destruct ((0 <=? k) && (k <? Z.of_nat (length H))) eqn:E; auto.
   apply add_nat_nth_other. lia.
 Qed.
+
+(* how HistogramRegistration.optimize obtains the parameters of the transform it returns
+   (translated from the source into NV.Generated.OptimizeBook) *)
+Inductive opt_binding := FminReturn | InPlaceLast.
